@@ -43,6 +43,7 @@ type vdSubject struct {
 	vers     []int16                   // the versions with a distinct layout for this type
 	extra    func(tp *vdTape) []vdCase // subject-specific additional cases
 	allowKiB int                       // allocation the subject legitimately makes besides the proportional bound
+	altLens  []int                     // further plausible-but-wrong values for length fields (e.g. the length of the inner set)
 	hasRecs  bool
 	comp     bool // a compressed payload is involved (allocation clause allows for inflation)
 }
@@ -495,6 +496,34 @@ func vdTestMsgSet(version int8, codec CompressionCodec) *MessageSet {
 	return &MessageSet{Messages: []*MessageBlock{{Offset: 2, Msg: w}}}
 }
 
+// vdTestMsgSetMulti: three blocks, each a COMPRESSED wrapper around its own small inner set (first / middle / last
+// block of a set each have their own length and CRC field). Returns the set and the inner-set lengths.
+func vdTestMsgSetMulti(version int8, codec CompressionCodec) (*MessageSet, []int) {
+	var blocks []*MessageBlock
+	var inner []int
+	off := int64(0)
+	for w := 0; w < 3; w++ {
+		in := &MessageSet{}
+		for k := 0; k <= w%2; k++ {
+			m := &Message{Version: version, Key: []byte(fmt.Sprintf("k%d%d", w, k)), Value: []byte(fmt.Sprintf("wrapped-%d-%d", w, k)),
+				CompressionLevel: CompressionLevelDefault}
+			if version >= 1 {
+				m.Timestamp = time.Unix(1600000000+off, 0).UTC()
+			}
+			in.Messages = append(in.Messages, &MessageBlock{Offset: off, Msg: m})
+			off++
+		}
+		raw := vdMustEncode(in)
+		inner = append(inner, len(raw))
+		wm := &Message{Version: version, Codec: codec, CompressionLevel: CompressionLevelDefault, Value: raw}
+		if version >= 1 {
+			wm.Timestamp = time.Unix(1600000000+off, 0).UTC()
+		}
+		blocks = append(blocks, &MessageBlock{Offset: off - 1, Msg: wm})
+	}
+	return &MessageSet{Messages: blocks}, inner
+}
+
 // vdWrapLegacy: inner message-set bytes -> compressed wrapper message inside a valid outer set
 func vdWrapLegacy(version int8, codec CompressionCodec) func([]byte) []byte {
 	return func(inner []byte) []byte {
@@ -625,6 +654,17 @@ func vdRecordSubjects() []*vdSubject {
 				out = append(out, in)
 			}
 		}
+		for _, c := range vdCodecs {
+			if c == CompressionNone || (c == CompressionZSTD && mv == 0) {
+				continue
+			}
+			ms, inner := vdTestMsgSetMulti(mv, c)
+			s := vdPlainDecodeSubject(fmt.Sprintf("MessageSet.v%d.multi/%s", mv, c), int16(mv), vdMustEncode(ms),
+				func() decoder { return &MessageSet{} }, setDig)
+			s.comp = true
+			s.altLens = inner
+			out = append(out, s)
+		}
 		m := vdTestMsgSet(mv, CompressionNone).Messages[0].Msg
 		out = append(out, vdPlainDecodeSubject(fmt.Sprintf("Message.v%d", mv), int16(mv), vdMustEncode(m),
 			func() decoder { return &Message{} },
@@ -699,6 +739,16 @@ func vdFetchSubjects() []*vdSubject {
 		if ver == 0 || ver == 3 {
 			mk(fmt.Sprintf("legacy.v%d.gzip", mv), ver, one(block(ver, legacy(mv, CompressionGZIP))), true)
 			mk(fmt.Sprintf("legacy.v%d.snappy", mv), ver, one(block(ver, legacy(mv, CompressionSnappy))), true)
+		}
+		if ver <= 3 {
+			// Fetch v0-v3 framing around a set of three compressed wrapper blocks
+			for _, c := range [][]CompressionCodec{{CompressionGZIP, CompressionSnappy}, {CompressionLZ4, CompressionGZIP},
+				{CompressionSnappy, CompressionZSTD}, {CompressionGZIP, CompressionSnappy, CompressionLZ4, CompressionZSTD}}[ver] {
+				ms, inner := vdTestMsgSetMulti(mv, c)
+				r := newLegacyRecords(ms)
+				mk(fmt.Sprintf("legacy.v%d.multi.%s", mv, c), ver, one(block(ver, &r)), true)
+				out[len(out)-1].altLens = inner
+			}
 		}
 		if ver >= 4 {
 			mk("batch", ver, one(block(ver, batch(CompressionNone, false))), false)
